@@ -19,13 +19,39 @@ type headVerdict struct {
 	class    string // "ok", "needmore", "reject"
 	consumed int
 	fields   string
+	// extraReads = Read calls the parser made on the connection after all bytes had been delivered (each one would
+	// block on a connection that stays open)
+	extraReads int
+}
+
+// onceReader delivers its bytes in one Read and counts the Reads asked for afterwards.
+type onceReader struct {
+	b     []byte
+	done  bool
+	extra int
+}
+
+func (o *onceReader) Read(p []byte) (int, error) {
+	if !o.done {
+		o.done = true
+		n := copy(p, o.b)
+		if n < len(o.b) {
+			o.b = o.b[n:]
+			o.done = false
+		}
+		return n, nil
+	}
+	o.extra++
+	return 0, io.EOF
 }
 
 func readReqHead(buf []byte) headVerdict {
 	var h fasthttp.RequestHeader
-	br := bufio.NewReaderSize(bytes.NewReader(buf), 64*1024)
+	src := &onceReader{b: buf}
+	br := bufio.NewReaderSize(src, 64*1024)
 	err := h.Read(br)
-	return verdictOf(err, len(buf), br, func() string {
+	extra := src.extra
+	v := verdictOf(err, len(buf), br, func() string {
 		var sb strings.Builder
 		fmt.Fprintf(&sb, "%s %s %s|", h.Method(), h.RequestURI(), h.Protocol())
 		for k, v := range h.All() {
@@ -33,13 +59,17 @@ func readReqHead(buf []byte) headVerdict {
 		}
 		return sb.String()
 	})
+	v.extraReads = extra
+	return v
 }
 
 func readRespHead(buf []byte) headVerdict {
 	var h fasthttp.ResponseHeader
-	br := bufio.NewReaderSize(bytes.NewReader(buf), 64*1024)
+	src := &onceReader{b: buf}
+	br := bufio.NewReaderSize(src, 64*1024)
 	err := h.Read(br)
-	return verdictOf(err, len(buf), br, func() string {
+	extra := src.extra
+	v := verdictOf(err, len(buf), br, func() string {
 		var sb strings.Builder
 		fmt.Fprintf(&sb, "%d %s|", h.StatusCode(), h.Protocol())
 		for k, v := range h.All() {
@@ -47,12 +77,14 @@ func readRespHead(buf []byte) headVerdict {
 		}
 		return sb.String()
 	})
+	v.extraReads = extra
+	return v
 }
 
 func verdictOf(err error, total int, br *bufio.Reader, fields func() string) headVerdict {
 	if err == nil {
 		rest, _ := io.ReadAll(br)
-		return headVerdict{"ok", total - len(rest), fields()}
+		return headVerdict{class: "ok", consumed: total - len(rest), fields: fields()}
 	}
 	if errors.Is(err, io.EOF) || errors.Is(err, io.ErrUnexpectedEOF) || errors.Is(err, fasthttp.ErrNeedMore) {
 		return headVerdict{class: "needmore"}
@@ -68,7 +100,7 @@ func init() {
 	Register(&Prop{
 		ID: "C09",
 		Rule: "triples (H, S1, S2): H = a request or response head built line by line with every mix of CRLF / bare-LF line ends and blank-line terminators (and without terminator), fields from a small grammar incl. folding and odd bytes; " +
-			"S1, S2 = continuations (empty, body bytes, a pipelined message with CRLFCRLF, bare LFs, random); both H++S1 and H++S2 go through RequestHeader.Read / ResponseHeader.Read; live: the head alone on a server connection, in one read or with its last 1..4 bytes in a read of their own, starvation reported as EOF or as a timeout (no answer before input starvation = waited); " +
+			"S1, S2 = continuations (empty, body bytes, a pipelined message with CRLFCRLF, bare LFs, random); both H++S1 and H++S2 go through RequestHeader.Read / ResponseHeader.Read (H alone through a reader that counts the reads asked for after everything was delivered); live: the head alone on a server connection, in one read or with its last 1..4 bytes in a read of their own, starvation reported as EOF or as a timeout (no answer before input starvation = waited); " +
 			"non-trivial = H contains a blank line; distinct = distinct triple",
 		Parallel: true,
 		Build: func(kind string, a [][]byte) *Case {
@@ -89,6 +121,9 @@ func init() {
 						desc := fmt.Sprintf("%s head %q: alone -> %s/%d [%s]; + %q -> %s/%d [%s]; + %q -> %s/%d [%s]", kind, Hd, v0.class, v0.consumed, v0.fields, S1, v1.class, v1.consumed, v1.fields, S2, v2.class, v2.consumed, v2.fields)
 						// property monitor: a head that is complete on its own (accepted or rejected) gets the same verdict whatever follows;
 						// and two continuations never produce two different accepted heads
+						if v0.class != "needmore" && v0.extraReads > 0 {
+							return Verdict{VSpec, "complete-head-waits", fmt.Sprintf("%s: the parser asked the connection for more input %d time(s) after the whole head had been delivered, although it then decided the head from its own bytes", desc, v0.extraReads)}
+						}
 						if v0.class != "needmore" {
 							for _, v := range []headVerdict{v1, v2} {
 								if v.class != v0.class || v.consumed != v0.consumed || v.fields != v0.fields {
@@ -178,9 +213,9 @@ func init() {
 					b.WriteString(lineEnds[r.Intn(4)])
 				}
 				if kind == "req" {
-					b.WriteString(r.Pick([]string{"GET / HTTP/1.1", "GET / HTTP/1.1", "POST /x HTTP/1.0", "GET /  HTTP/1.1", "BAD"}))
+					b.WriteString(r.Pick([]string{"GET / HTTP/1.1", "GET / HTTP/1.1", "POST /x HTTP/1.0", "GET /  HTTP/1.1", "BAD", "G / HTTP/1.1", "X"}))
 				} else {
-					b.WriteString(r.Pick([]string{"HTTP/1.1 200 OK", "HTTP/1.1 200 OK", "HTTP/1.0 204 No Content", "HTTP/1.1 200", "BAD"}))
+					b.WriteString(r.Pick([]string{"HTTP/1.1 200 OK", "HTTP/1.1 200 OK", "HTTP/1.0 204 No Content", "HTTP/1.1 200", "HTTP/1.1 204", "BAD", "X"}))
 				}
 				b.WriteString(lineEnds[r.Intn(4)])
 				for j, m := 0, r.Intn(4); j < m; j++ {
